@@ -188,6 +188,29 @@ func checkC14(c *Check) {
 
 	// ---------- 3: fresh decode target per message ----------
 	checkFreshDecode(c, "3/fresh-decode-target")
+
+	// ---------- 4: every file operation gets exactly one answer, its own ----------
+	// (the product exploration of C10, restricted to Open / Symlink / Delete / Reset: a handler that answers twice
+	// or not at all shifts every later result onto the wrong call)
+	sub := NewCheck("C10", c.Tier, c.P)
+	checkC10(sub)
+	n4 := 0
+	for _, o := range sub.Obs {
+		if o.Rule != "C10.2/product" {
+			continue
+		}
+		fileOp := false
+		for _, op := range []string{"@Open", "@Symlink", "@Delete", "@Reset"} {
+			if strings.HasSuffix(o.Key, op) {
+				fileOp = true
+			}
+		}
+		if o.Status == "ok" || fileOp {
+			n4++
+			c.Obs = append(c.Obs, Obligation{Rule: "C14.4/one-answer-per-call", Key: o.Key, Pos: o.Pos, Status: o.Status, Msg: o.Msg, Detail: o.Detail})
+		}
+	}
+	c.Expect("4/one-answer-per-call", 5)
 }
 
 func firstElem(v ssa.Value) (ssa.Value, bool) {
@@ -219,7 +242,7 @@ func checkOpenTarget(c *Check, fn *ssa.Function) {
 	cd := controlDeps(fn)
 	for _, b := range fn.Blocks {
 		ret, ok := b.Instrs[len(b.Instrs)-1].(*ssa.Return)
-		if !ok || !isNilConst(ret.Results[0]) {
+		if !ok || !isNilConst(retVal(ret, 0)) {
 			continue
 		}
 		g := cd.guardOf(b)
@@ -340,6 +363,54 @@ func checkHostOpen(c *Check) {
 		}
 	}
 	c.Cond(okCursor, "2/host-open", key+":cursor", p.Pos(newFile.Pos()), "the descriptor cursor starts at 0 and advances exactly once per successful item", "the descriptor cursor does not start at 0 / advance exactly once per item without error: descriptors are paired with the wrong items")
+	// the element taken from the received descriptors is behind a bound test of THAT index: an If comparing the
+	// cursor (the very value used as the index, or a load of the same variable) with len(Fds) whose in-range edge
+	// dominates the access
+	okBound := false
+	if cursor != nil {
+		for _, b := range op.Blocks {
+			iff := blockIf(b)
+			if iff == nil {
+				continue
+			}
+			bo, ok := iff.Cond.(*ssa.BinOp)
+			if !ok {
+				continue
+			}
+			sameIdx := func(v ssa.Value) bool {
+				v = stripConv(v)
+				return v == cursor || describe(v) == describe(cursor)
+			}
+			isLenFds := func(v ssa.Value) bool {
+				d := describe(stripConv(v))
+				return strings.HasPrefix(d, "builtin:len(") && strings.HasSuffix(d, ".Fds)")
+			}
+			inRange := -1
+			switch {
+			case sameIdx(bo.X) && isLenFds(bo.Y):
+				switch bo.Op {
+				case token.GEQ:
+					inRange = 1
+				case token.LSS:
+					inRange = 0
+				}
+			case isLenFds(bo.X) && sameIdx(bo.Y):
+				switch bo.Op {
+				case token.LEQ:
+					inRange = 1
+				case token.GTR:
+					inRange = 0
+				}
+			}
+			if inRange >= 0 {
+				if sb := b.Succs[inRange]; sb == newFile.Block() || sb.Dominates(newFile.Block()) {
+					okBound = true
+				}
+			}
+		}
+	}
+	c.Cond(okBound, "2/host-open", key+":cursor-bound", p.Pos(newFile.Pos()), "the cursor is tested against the number of received descriptors before it is used",
+		"the received descriptors are indexed by a cursor that is not itself tested against their number (a different variable is tested): a batch in which a failure precedes a success is rejected as a mismatch, or a short reply panics the host")
 	okMark := mark != nil && dominatesInstr(mark, newFile) && stripConv(mark.Common().Args[0]) == fdArg
 	c.Cond(okMark, "2/host-open", key+":cloexec", p.Pos(newFile.Pos()), "close-on-exec is set on the descriptor before it is wrapped", "the received descriptor is wrapped without close-on-exec")
 	// deferred cleanup: closes msg.Fds[cursor:] and result files when err != nil
@@ -382,7 +453,7 @@ func checkHostOpen(c *Check) {
 		}
 		c.Cond(ok, "2/host-open", "container.(host)Symlink:length-check", p.Pos(sy.Pos()), "reply length is checked against the request", "the reply's length is not checked against the request")
 	}
-	c.Expect("2/host-open", 6)
+	c.Expect("2/host-open", 7)
 }
 
 // checkFreshDecode: both receive loops decode every message into a value
